@@ -424,6 +424,8 @@ def rotation_case(draw):
         "gran": draw(st.sampled_from(["hour", "hour", "minute", "field"])),
         # the adapter is chosen by the template's extension
         "ext": draw(st.sampled_from([None, None, None, ".json", ".jsonl", ".avro", ".records.bz2"])),
+        # {ts} is the record's _generated as the record carries it (with its own UTC offset)
+        "tzoff": draw(st.sampled_from([None, None, 19800, -32400, 3600, 50400])),
     }
 
 
@@ -452,12 +454,18 @@ def check_rotation(case, ctx):
         else:
             template = os.path.join(tmp, "{name}-{ts:%Y%m%dT%H}-{record.tag}" + ext)
 
+        tzo = case.get("tzoff")
+        if tzo is not None and ext == ".avro":
+            tzo = None  # avro normalises timestamps to UTC on reading: the hour read back would not be the hour written
+        tz_ = UTC if tzo is None else _d.timezone(_d.timedelta(seconds=tzo))
+        ctx.cls("generated-offset:%s" % tzo)
+
         def slot_ts(slot):
             if gran == "minute":
-                return _d.datetime(2023, 5, 1, 7, slot, 30, tzinfo=UTC)
+                return _d.datetime(2023, 5, 1, 7, slot, 30, tzinfo=tz_)
             if gran == "field":
-                return _d.datetime(2023, 5, 1, 7, 30, tzinfo=UTC)
-            return _d.datetime(2023, 5, 1, slot, 30, tzinfo=UTC)
+                return _d.datetime(2023, 5, 1, 7, 30, tzinfo=tz_)
+            return _d.datetime(2023, 5, 1, slot, 30, tzinfo=tz_)
 
         def slot_prefix(slot):
             if gran == "minute":
